@@ -225,4 +225,22 @@ def severity (L : Level) (o : Obj2) : Int := severityF (score L o)
 def severityName : Int → Bytes
   | 1 => b!"Low" | 2 => b!"Medium" | 3 => b!"High" | _ => b!"Unknown"
 
+/-! ### nil receivers -/
+
+/-- `GetError()` of a nil receiver -/
+def nilGetErr : Level → Err
+  | .base => .noBaseMetrics | .temporal => .noTemporalMetrics | .environmental => .noEnvironmentalMetrics
+/-- `Encode()` of a nil receiver reports "no Base metrics" at every level (sic) -/
+def nilEncErr : Level → Err := fun _ => .noBaseMetrics
+
+def getErrorN (L : Level) : Option Obj2 → Option Err
+  | none => some (nilGetErr L)
+  | some o => getError L o
+def scoreN (L : Level) : Option Obj2 → Nat
+  | none => 0
+  | some o => score L o
+def encodeN (L : Level) : Option Obj2 → Bytes × Option Err
+  | none => ([], some (nilEncErr L))
+  | some o => encode L o
+
 end CvssVerif.V2
